@@ -466,7 +466,13 @@ class USBResetSequencer(Elaboratable):
                     # should re-initialize anyway). Move to the HS reset detect sequence.
                     with m.Else():
                         m.d.comb += self.bus_reset.eq(1)
-                        m.next = 'START_HS_DETECTION'
+
+                        # As in our other reset paths, only attempt a high-speed handshake if
+                        # we haven't been restricted to full / low speed in the meantime.
+                        with m.If(self.low_speed_only | self.full_speed_only):
+                            m.next = 'IS_LOW_OR_FULL_SPEED'
+                        with m.Else():
+                            m.next = 'START_HS_DETECTION'
 
 
             # SUSPEND -- our device has entered USB suspend; we'll now wait for either a
